@@ -1,15 +1,27 @@
 /-
   C20 — the HTTP service answers every request and survives it.
 
-  Carried by Lean: the handler's status logic (total; a ranking only when binding and decision both
-  succeed) and the request-level validation of `MakeDecision` (model `validateRequest`, run against the
-  real code with a stub method): every documented request-level constraint is rejected.  The
-  per-method parameter constraints are proved with their models (C03 `choquetParse_*`, C05 ELECTRE
-  validation, C14 level series, C15 split condition, C18 scaling / mixing ratio).
+  Carried by Lean:
+  * the handler's status logic (`handle`: total; a ranking only when binding and decision both succeed);
+  * the request-level validation of `MakeDecision` (model `validateRequest`, run against the real code
+    with a stub method): every documented request-level constraint violated one at a time is rejected
+    (`blank_method_rejected*`, `duplicate_criterion_rejected*`, `bad_range_rejected*`,
+    `missing_value_rejected`, `unknown_alternative_rejected`), and `validateRequest_ok_iff` characterises
+    the accepted requests exactly (nothing else is rejected, nothing else is accepted);
+  * the per-method / per-bias parameter constraints the statement lists, collected here from their
+    models: Choquet (C03 `choquetParse_*`), ELECTRE III weights / thresholds / distillation guard,
+    satisfaction-level series (C14), split condition and ordering names (C15), fatigue function and
+    bounding scaling (C17), concealment scaling and mixing ratio (models of C18), bias names, weights.
   Not expressible in Lean (partial): that the OS process survives and keeps answering — decided
   against the real server binary (harness/main/c20.go).
 -/
 import Rdm.Model.Validate
+import Rdm.Lemmas.ValidateH
+import Rdm.Lemmas.ValidateHMethods
+import Rdm.Props.C03
+import Rdm.Props.C14
+import Rdm.Props.C15
+import Rdm.Props.C17
 namespace Rdm.Props.C20
 open Rdm
 
@@ -36,8 +48,8 @@ theorem rejected_never_ranked {Resp : Type} (bound : Bool) (e : String) :
 variable {α : Type} [Num α]
 
 /-- an empty or inverted declared value range (max ≤ min) is rejected -/
-theorem bad_range_rejected (c : Crit Rat) (lo hi : Rat) (h : hi ≤ lo) (hc : c.range = some (lo, hi))
-    (post : List (Crit Rat)) (seen : List String) :
+theorem bad_range_rejected (c : Crit α) (lo hi : α) (h : hi ≤ lo) (hc : c.range = some (lo, hi))
+    (post : List (Crit α)) (seen : List String) :
     ∃ e, validateCriteria (c :: post) seen = .error e := by
   unfold validateCriteria
   split
@@ -50,5 +62,434 @@ theorem bad_range_rejected (c : Crit Rat) (lo hi : Rat) (h : hi ≤ lo) (hc : c.
 /-- a blank method name is rejected before anything else -/
 theorem blank_method_rejected (crit : List (Crit α)) (known : List (Alt α)) (chosen : List String) :
     ∃ e, validateRequest "  " crit known chosen = .error e := ⟨_, rfl⟩
+
+
+/-- … wherever the criterion stands in the list, and at request level -/
+theorem bad_range_rejected_anywhere (crit : List (Crit α)) (c : Crit α) (hc : c ∈ crit) (lo hi : α)
+    (hr : c.range = some (lo, hi)) (h : hi ≤ lo) (seen : List String) :
+    ∃ e, validateCriteria crit seen = .error e := by
+  apply valH_error_of_ne_ok
+  intro hok
+  exact ((valH_validateCriteria_ok_iff crit seen).mp hok).2.2 c hc lo hi hr h
+
+/-! ### request-level constraints, one at a time -/
+
+/-- a blank method name (only white space, whatever the white space) is rejected -/
+theorem blank_method_rejected_any (method : String) (hb : isBlank method = true) (crit : List (Crit α))
+    (known : List (Alt α)) (chosen : List String) :
+    ∃ e, validateRequest method crit known chosen = .error e := by
+  apply valH_error_of_ne_ok
+  intro hok
+  have := ((valH_validateRequest_ok_iff_stages method crit known chosen).mp hok).1
+  rw [hb] at this
+  cases this
+
+/-- duplicate criterion ids: two entries at different positions with the same id are rejected,
+    whatever ids were seen before (the induction-ready form) -/
+theorem duplicate_criterion_rejected_seen (crit : List (Crit α)) (seen : List String) (i j : Nat)
+    (a b : Crit α) (hij : i < j) (hi : crit[i]? = some a) (hj : crit[j]? = some b) (hid : a.id = b.id) :
+    ∃ e, validateCriteria crit seen = .error e :=
+  valH_duplicate_rejected crit seen i j a b hij hi hj hid
+
+/-- duplicate criterion ids are rejected by `Criteria.Validate` -/
+theorem duplicate_criterion_rejected (crit : List (Crit α)) (i j : Nat) (a b : Crit α) (hij : i < j)
+    (hi : crit[i]? = some a) (hj : crit[j]? = some b) (hid : a.id = b.id) :
+    ∃ e, validateCriteria crit [] = .error e :=
+  valH_duplicate_rejected crit [] i j a b hij hi hj hid
+
+/-- any failure of `Criteria.Validate` is a failure of the request -/
+theorem criteria_error_rejects_request (method : String) (crit : List (Crit α)) (known : List (Alt α))
+    (chosen : List String) (e : String) (h : validateCriteria crit [] = .error e) :
+    ∃ e', validateRequest method crit known chosen = .error e' := by
+  apply valH_error_of_ne_ok
+  intro hok
+  have := ((valH_validateRequest_ok_iff_stages method crit known chosen).mp hok).2.1
+  rw [h] at this
+  cases this
+
+/-- … and hence a request with duplicate criterion ids is rejected, whatever its other fields -/
+theorem duplicate_criterion_rejected_request (method : String) (crit : List (Crit α)) (known : List (Alt α))
+    (chosen : List String) (i j : Nat) (a b : Crit α) (hij : i < j)
+    (hi : crit[i]? = some a) (hj : crit[j]? = some b) (hid : a.id = b.id) :
+    ∃ e, validateRequest method crit known chosen = .error e := by
+  obtain ⟨e, he⟩ := duplicate_criterion_rejected crit i j a b hij hi hj hid
+  exact criteria_error_rejects_request method crit known chosen e he
+
+/-- a request with an empty or inverted value range on some criterion is rejected -/
+theorem bad_range_rejected_request (method : String) (crit : List (Crit α)) (known : List (Alt α))
+    (chosen : List String) (c : Crit α) (hc : c ∈ crit) (lo hi : α) (hr : c.range = some (lo, hi))
+    (h : hi ≤ lo) : ∃ e, validateRequest method crit known chosen = .error e := by
+  obtain ⟨e, he⟩ := bad_range_rejected_anywhere crit c hc lo hi hr h []
+  exact criteria_error_rejects_request method crit known chosen e he
+
+/-- a known alternative without a value for some criterion: `validateAlternatives` fails -/
+theorem missing_value_rejected_alternatives (crit : List (Crit α)) (known : List (Alt α))
+    (a : Alt α) (ha : a ∈ known) (c : Crit α) (hc : c ∈ crit) (hmiss : a.vals.has c.id = false) :
+    ∃ e, validateAlternatives known crit = .error e := by
+  apply valH_error_of_ne_ok
+  intro hok
+  have := (valH_validateAlternatives_ok_iff known crit).mp hok a ha c hc
+  rw [hmiss] at this
+  cases this
+
+/-- missing criterion values: on a request with a method name and valid criteria, a known alternative
+    that lacks a value for some criterion makes the request fail -/
+theorem missing_value_rejected (method : String) (crit : List (Crit α)) (known : List (Alt α))
+    (chosen : List String) (_hm : isBlank method = false) (_hcrit : validateCriteria crit [] = .ok ())
+    (a : Alt α) (ha : a ∈ known) (c : Crit α) (hc : c ∈ crit) (hmiss : a.vals.has c.id = false) :
+    ∃ e, validateRequest method crit known chosen = .error e := by
+  apply valH_error_of_ne_ok
+  intro hok
+  have := (valH_validateAlternatives_ok_iff known crit).mp
+    ((valH_validateRequest_ok_iff_stages method crit known chosen).mp hok).2.2.1 a ha c hc
+  rw [hmiss] at this
+  cases this
+
+/-- unknown alternatives: a chosen id that no known alternative carries is rejected, whatever the
+    other fields of the request -/
+theorem unknown_alternative_rejected (method : String) (crit : List (Crit α)) (known : List (Alt α))
+    (chosen : List String) (id : String) (hid : id ∈ chosen) (hunk : ∀ a ∈ known, a.id ≠ id) :
+    ∃ e, validateRequest method crit known chosen = .error e := by
+  apply valH_error_of_ne_ok
+  intro hok
+  have h4 := ((valH_validateRequest_ok_iff_stages method crit known chosen).mp hok).2.2.2
+  obtain ⟨a, ha, haid⟩ := (valH_fetch_unit_ok_iff known id).mp ((valH_forM_ok_iff _ chosen).mp h4 id hid)
+  exact hunk a ha haid
+
+/-- `FetchAlternative` itself: an id no known alternative carries is an error -/
+theorem fetchAlt_unknown_rejected (known : List (Alt α)) (id : String) (hunk : ∀ a ∈ known, a.id ≠ id) :
+    ∃ e, fetchAlt known id = .error e := by
+  cases h : fetchAlt known id with
+  | error e => exact ⟨e, rfl⟩
+  | ok a =>
+    obtain ⟨b, hb, hbid⟩ := (valH_fetchAlt_isOk_iff known id).mp ⟨a, h⟩
+    exact absurd hbid (hunk b hb)
+
+/-! ### exact characterisation of the accepted requests -/
+
+/-- a loop in `Except` succeeds iff its body succeeds on every element -/
+theorem forM_ok_iff {β : Type} (f : β → R Unit) (l : List β) :
+    l.forM f = .ok () ↔ ∀ x ∈ l, f x = .ok () := valH_forM_ok_iff f l
+
+/-- `FetchAlternative` returns the first known alternative with the id -/
+theorem fetchAlt_ok_iff (known : List (Alt α)) (id : String) (a : Alt α) :
+    fetchAlt known id = .ok a ↔ known.find? (fun a => a.id == id) = some a :=
+  valH_fetchAlt_ok_iff known id a
+
+/-- `Criteria.Validate` (with the ids seen so far) accepts iff the ids are pairwise different, none was
+    seen before, and no declared range has max ≤ min -/
+theorem validateCriteria_ok_iff (crit : List (Crit α)) (seen : List String) :
+    validateCriteria crit seen = .ok () ↔
+      (crit.map (·.id)).Nodup ∧ (∀ c ∈ crit, c.id ∉ seen) ∧
+      (∀ c ∈ crit, ∀ lo hi, c.range = some (lo, hi) → ¬ hi ≤ lo) :=
+  valH_validateCriteria_ok_iff crit seen
+
+/-- `validateAlternatives` accepts iff every known alternative has a value for every criterion -/
+theorem validateAlternatives_ok_iff (known : List (Alt α)) (crit : List (Crit α)) :
+    validateAlternatives known crit = .ok () ↔ ∀ a ∈ known, ∀ c ∈ crit, a.vals.has c.id = true :=
+  valH_validateAlternatives_ok_iff known crit
+
+/-- the request-level validation of `MakeDecision` accepts **exactly** the requests that satisfy the
+    documented request-level constraints: non-blank method, unique criterion ids, every declared range
+    with `¬ max ≤ min`, every known alternative valued on every criterion, every chosen id known -/
+theorem validateRequest_ok_iff (method : String) (crit : List (Crit α)) (known : List (Alt α))
+    (chosen : List String) :
+    validateRequest method crit known chosen = .ok () ↔
+      isBlank method = false ∧ (crit.map (·.id)).Nodup ∧
+      (∀ c ∈ crit, ∀ lo hi, c.range = some (lo, hi) → ¬ hi ≤ lo) ∧
+      (∀ a ∈ known, ∀ c ∈ crit, a.vals.has c.id = true) ∧
+      (∀ id ∈ chosen, ∃ a ∈ known, a.id = id) := by
+  rw [valH_validateRequest_ok_iff_stages, valH_validateCriteria_nil_ok_iff,
+    valH_validateAlternatives_ok_iff, valH_forM_ok_iff]
+  constructor
+  · rintro ⟨h1, ⟨h2, h3⟩, h4, h5⟩
+    exact ⟨h1, h2, h3, h4, fun id hid => (valH_fetch_unit_ok_iff known id).mp (h5 id hid)⟩
+  · rintro ⟨h1, h2, h3, h4, h5⟩
+    exact ⟨h1, ⟨h2, h3⟩, h4, fun id hid => (valH_fetch_unit_ok_iff known id).mpr (h5 id hid)⟩
+
+/-- over the rationals the range clause reads "min < max" -/
+theorem validateRequest_ok_iff_rat (method : String) (crit : List (Crit Rat)) (known : List (Alt Rat))
+    (chosen : List String) :
+    validateRequest method crit known chosen = .ok () ↔
+      isBlank method = false ∧ (crit.map (·.id)).Nodup ∧
+      (∀ c ∈ crit, ∀ lo hi : Rat, c.range = some (lo, hi) → lo < hi) ∧
+      (∀ a ∈ known, ∀ c ∈ crit, a.vals.has c.id = true) ∧
+      (∀ id ∈ chosen, ∃ a ∈ known, a.id = id) := by
+  rw [validateRequest_ok_iff]
+  constructor
+  · rintro ⟨h1, h2, h3, h4, h5⟩
+    exact ⟨h1, h2, fun c hc lo hi hr => Rat.not_le.mp (h3 c hc lo hi hr), h4, h5⟩
+  · rintro ⟨h1, h2, h3, h4, h5⟩
+    exact ⟨h1, h2, fun c hc lo hi hr => Rat.not_le.mpr (h3 c hc lo hi hr), h4, h5⟩
+
+/-- every request is either accepted or rejected with a message (the validation is total), and it is
+    rejected exactly when one of the documented request-level constraints is violated -/
+theorem validateRequest_rejected_iff (method : String) (crit : List (Crit α)) (known : List (Alt α))
+    (chosen : List String) :
+    (∃ e, validateRequest method crit known chosen = .error e) ↔
+      ¬ (isBlank method = false ∧ (crit.map (·.id)).Nodup ∧
+        (∀ c ∈ crit, ∀ lo hi, c.range = some (lo, hi) → ¬ hi ≤ lo) ∧
+        (∀ a ∈ known, ∀ c ∈ crit, a.vals.has c.id = true) ∧
+        (∀ id ∈ chosen, ∃ a ∈ known, a.id = id)) := by
+  rw [← validateRequest_ok_iff]
+  constructor
+  · rintro ⟨e, he⟩ hok
+    rw [he] at hok
+    cases hok
+  · exact valH_error_of_ne_ok _
+
+/-! ### the hypotheses are satisfiable: concrete requests -/
+
+/-- a small valid request passes -/
+example : validateRequest (α := Rat) "weightedSum"
+    [⟨"c1", "gain", some (0, 1)⟩, ⟨"c2", "cost", none⟩] [⟨"a", [("c1", 1/2), ("c2", 3)]⟩] ["a"] = .ok () := rfl
+/-- … and each constraint violated one at a time on it is rejected: blank method -/
+example : validateRequest (α := Rat) " \t"
+    [⟨"c1", "gain", some (0, 1)⟩, ⟨"c2", "cost", none⟩] [⟨"a", [("c1", 1/2), ("c2", 3)]⟩] ["a"]
+    = .error "empty-method" := rfl
+/-- duplicate criterion id -/
+example : validateRequest (α := Rat) "weightedSum"
+    [⟨"c1", "gain", some (0, 1)⟩, ⟨"c1", "cost", none⟩] [⟨"a", [("c1", 1/2), ("c2", 3)]⟩] ["a"]
+    = .error "criterion-not-unique:c1" := rfl
+/-- empty range (max = min) and inverted range (max < min) -/
+example : validateRequest (α := Rat) "weightedSum"
+    [⟨"c1", "gain", some (1, 1)⟩, ⟨"c2", "cost", none⟩] [⟨"a", [("c1", 1/2), ("c2", 3)]⟩] ["a"]
+    = .error "invalid-range:c1" := rfl
+example : validateRequest (α := Rat) "weightedSum"
+    [⟨"c1", "gain", some (1, 0)⟩, ⟨"c2", "cost", none⟩] [⟨"a", [("c1", 1/2), ("c2", 3)]⟩] ["a"]
+    = .error "invalid-range:c1" := rfl
+/-- missing criterion value -/
+example : validateRequest (α := Rat) "weightedSum"
+    [⟨"c1", "gain", some (0, 1)⟩, ⟨"c2", "cost", none⟩] [⟨"a", [("c1", 1/2)]⟩] ["a"]
+    = .error "missing-value:a:c2" := rfl
+/-- unknown alternative -/
+example : validateRequest (α := Rat) "weightedSum"
+    [⟨"c1", "gain", some (0, 1)⟩, ⟨"c2", "cost", none⟩] [⟨"a", [("c1", 1/2), ("c2", 3)]⟩] ["a", "b"]
+    = .error "unknown-alternative:b" := rfl
+/-- the hypotheses of `duplicate_criterion_rejected` / `missing_value_rejected` /
+    `unknown_alternative_rejected` are satisfiable -/
+example : ∃ e, validateCriteria (α := Rat) [⟨"c1", "gain", none⟩, ⟨"c2", "cost", none⟩, ⟨"c1", "gain", none⟩] [] = .error e :=
+  duplicate_criterion_rejected _ 0 2 ⟨"c1", "gain", none⟩ ⟨"c1", "gain", none⟩ (by decide) rfl rfl rfl
+example : ∃ e, validateRequest (α := Rat) "owa" [⟨"c1", "gain", none⟩] [⟨"a", []⟩] [] = .error e :=
+  missing_value_rejected "owa" _ _ _ rfl rfl ⟨"a", []⟩ (by simp) ⟨"c1", "gain", none⟩ (by simp) rfl
+example : ∃ e, validateRequest (α := Rat) "owa" [] [⟨"a", []⟩] ["b"] = .error e :=
+  unknown_alternative_rejected "owa" _ _ _ "b" (by simp) (by simp)
+
+
+/-! ## per-method and per-bias parameter constraints
+
+  Each theorem below mirrors one `panic` of the per-method validation code (through its model).  Those
+  marked "re-export" restate a theorem of another property file with the same hypotheses and
+  conclusion, so that the documented constraints of C20 can be read (and are audited) in one
+  place; the others are proved from the model definitions in `Lemmas/ValidateHMethods.lean`. -/
+
+/-! ### Choquet integral -/
+
+/-- re-export of `Props.C03.choquetParse_gain_only`: `parse` accepts gain criteria only -/
+theorem choquet_gain_only (crits : List (Crit α)) (w r : KMap α)
+    (h : choquetParse crits w = .ok r) : ∀ c ∈ crits, c.type = "gain" :=
+  Rdm.Props.C03.choquetParse_gain_only crits w r h
+
+/-- re-export of `Props.C03.choquetParse_range`: `parse` accepts only capacities in [0,1] -/
+theorem choquet_weights_in_unit_interval (crits : List (Crit Rat)) (w r : KMap Rat)
+    (h : choquetParse crits w = .ok r) : ∀ kv ∈ r, 0 ≤ kv.2 ∧ kv.2 ≤ 1 :=
+  Rdm.Props.C03.choquetParse_range crits w r h
+
+/-- rejection form: a non-gain criterion makes the Choquet parse fail -/
+theorem choquet_non_gain_rejected (crits : List (Crit α)) (w : KMap α) (c : Crit α) (hc : c ∈ crits)
+    (hng : c.type ≠ "gain") : ∃ e, choquetParse crits w = .error e :=
+  valH_choquet_non_gain_rejected crits w c hc hng
+
+/-- rejection form: a capacity below 0 or above 1 makes the Choquet parse fail -/
+theorem choquet_weight_out_of_range_rejected (crits : List (Crit Rat)) (w : KMap Rat) (kv : String × Rat)
+    (hkv : kv ∈ w) (hout : kv.2 < 0 ∨ 1 < kv.2) : ∃ e, choquetParse crits w = .error e :=
+  valH_choquet_weight_range_rejected crits w kv hkv hout
+
+/-! ### ELECTRE III -/
+
+/-- a non-positive ELECTRE weight is rejected (`validateParameters`) -/
+theorem electre_nonpositive_weight_rejected (t : ECrit Rat) (h : t.k ≤ 0) :
+    ∃ e, validateParameters t = .error e :=
+  valH_electre_weight_rejected t h
+
+/-- a constant indifference threshold that is negative is rejected -/
+theorem electre_negative_q_rejected (t : ECrit Rat) (ha : t.q.a = 0) (hb : t.q.b < 0) :
+    ∃ e, validateParameters t = .error e :=
+  valH_electre_q_rejected t (by rw [Num.beq_rat, ha]; rfl)
+    (by rw [Num.beq_rat]; exact decide_eq_false (ne_of_lt hb)) (le_of_lt hb)
+
+/-- non-increasing constant thresholds: a preference threshold `p ≤ q` (with `q > 0`, `p` set) is rejected -/
+theorem electre_p_le_q_rejected (t : ECrit Rat) (hq : 0 < t.q.b) (hpa : t.p.a = 0) (hpb : t.p.b ≠ 0)
+    (hle : t.p.b ≤ t.q.b) : ∃ e, validateParameters t = .error e :=
+  valH_electre_p_le_q_rejected t hq (by rw [Num.beq_rat, hpa]; rfl)
+    (by rw [Num.beq_rat]; exact decide_eq_false hpb) hle
+
+/-- non-increasing constant thresholds: a veto threshold `v ≤ p` (with `p > 0`, `v` set) is rejected -/
+theorem electre_v_le_p_rejected (t : ECrit Rat) (hp : 0 < t.p.b) (hva : t.v.a = 0) (hvb : t.v.b ≠ 0)
+    (hle : t.v.b ≤ t.p.b) : ∃ e, validateParameters t = .error e :=
+  valH_electre_v_le_p_rejected t hp (by rw [Num.beq_rat, hva]; rfl)
+    (by rw [Num.beq_rat]; exact decide_eq_false hvb) hle
+
+/-- with three constant positive thresholds the ELECTRE validation accepts exactly a positive weight
+    and strictly increasing thresholds `q < p < v` -/
+theorem electre_constant_thresholds_accepted_iff (t : ECrit Rat) (hqa : t.q.a = 0) (hpa : t.p.a = 0)
+    (hva : t.v.a = 0) (hq : 0 < t.q.b) (hp : 0 < t.p.b) (hv : 0 < t.v.b) :
+    validateParameters t = .ok () ↔ 0 < t.k ∧ t.q.b < t.p.b ∧ t.p.b < t.v.b :=
+  valH_electre_const_ok_iff t hqa hpa hva hq hp hv
+
+/-- the guard of `getDistillationFunc` accepts exactly the linear functions that are non-negative on
+    the whole credibility interval -/
+theorem distillation_accepted_iff_nonneg (f : LinFun Rat) :
+    validDistillation f = true ↔ ∀ x : Rat, 0 ≤ x → x ≤ 1 → 0 ≤ f.a * x + f.b :=
+  valH_distillation_ok_iff_nonneg f
+
+/-- a distillation function that is negative at some credibility in [0,1] is refused -/
+theorem negative_distillation_rejected (f : LinFun Rat) (x : Rat) (hx0 : 0 ≤ x) (hx1 : x ≤ 1)
+    (hneg : f.a * x + f.b < 0) : validDistillation f = false :=
+  valH_distillation_negative_somewhere f x hx0 hx1 hneg
+
+/-! ### satisfaction-level series (aspect elimination, satisfaction heuristic) -/
+
+/-- re-export of `Props.C14.invalid_parameters_rejected`: coefficients outside the documented ranges
+    are rejected, no level is handed out -/
+theorem levels_invalid_parameters_rejected (k : CoefKind) (d : DMP Rat) (c mx mn : Rat)
+    (h : coefValid k c mx mn = false) : ∃ e, coefLevels k d c mx mn = .error e :=
+  Rdm.Props.C14.invalid_parameters_rejected k d c mx mn h
+
+/-- re-export of `Props.C14.validation_accepts_exactly_documented_ranges` -/
+theorem levels_validation_accepts_exactly_documented_ranges (k : CoefKind) (c mx mn : Rat) :
+    coefValid k c mx mn = true ↔
+      (0 < c ∧ c < 1 ∧ (if k.inc = true then 0 ≤ mn ∧ mn ≤ 1 ∧ 0 ≤ mx ∧ mx ≤ 1
+                        else 0 < mn ∧ mn ≤ 1 ∧ 0 < mx ∧ mx ≤ 1)) :=
+  Rdm.Props.C14.validation_accepts_exactly_documented_ranges k c mx mn
+
+/-- re-export of `Props.C14.explicit_levels_validated`: explicit thresholds must hold every criterion -/
+theorem levels_explicit_thresholds_validated (d : DMP Rat) (ts : List (KMap Rat)) :
+    (explicitLevels d ts = .ok ts ↔ ∀ t ∈ ts, ∀ cr ∈ d.crit, t.has cr.id = true) ∧
+    (∀ lv, explicitLevels d ts = .ok lv → lv = ts) :=
+  Rdm.Props.C14.explicit_levels_validated d ts
+
+/-- an empty or unregistered level-function name is rejected -/
+theorem unknown_levels_function_rejected (sources : List LevelSource) (fn : String)
+    (hunk : ∀ s ∈ sources, (s.name == fn) = false) : ∃ e, findSource sources fn = .error e :=
+  valH_unknown_levels_function_rejected sources fn hunk
+
+/-! ### split condition of criteria omission / preference reversal -/
+
+/-- `validate` accepts exactly `ratio ∈ [0,1]` and `min ≤ max` -/
+theorem split_condition_accepted_iff (c : SplitCond Rat) :
+    c.validate = .ok () ↔ 0 ≤ c.ratio ∧ c.ratio ≤ 1 ∧ c.min ≤ c.max :=
+  valH_split_validate_ok_iff c
+
+/-- an out-of-range split ratio is rejected by criteria omission -/
+theorem omission_ratio_out_of_range_rejected (eps : Rat) (c : SplitCond Rat) (name : String)
+    (cur : DMP Rat) (d : Draws Rat) (h : c.ratio < 0 ∨ 1 < c.ratio) :
+    ∃ e, omissionApply eps c name cur d = .error e :=
+  valH_omission_invalid_rejected eps c name cur d (valH_split_ratio_rejected c (by
+    rintro ⟨h0, h1⟩
+    rcases h with h | h
+    · exact absurd h (Rat.not_lt.mpr h0)
+    · exact absurd h (Rat.not_lt.mpr h1)))
+
+/-- … and by preference reversal -/
+theorem reversal_ratio_out_of_range_rejected (eps : Rat) (c : SplitCond Rat) (name : String)
+    (cur : DMP Rat) (d : Draws Rat) (h : c.ratio < 0 ∨ 1 < c.ratio) :
+    ∃ e, reversalApply eps c name cur d = .error e :=
+  valH_reversal_invalid_rejected eps c name cur d (valH_split_ratio_rejected c (by
+    rintro ⟨h0, h1⟩
+    rcases h with h | h
+    · exact absurd h (Rat.not_lt.mpr h0)
+    · exact absurd h (Rat.not_lt.mpr h1)))
+
+/-- `max < min` is rejected by both -/
+theorem omission_max_below_min_rejected (eps : α) (c : SplitCond α) (name : String) (cur : DMP α)
+    (d : Draws α) (h : c.max < c.min) : ∃ e, omissionApply eps c name cur d = .error e :=
+  valH_omission_invalid_rejected eps c name cur d (valH_split_minmax_rejected c h)
+
+theorem reversal_max_below_min_rejected (eps : α) (c : SplitCond α) (name : String) (cur : DMP α)
+    (d : Draws α) (h : c.max < c.min) : ∃ e, reversalApply eps c name cur d = .error e :=
+  valH_reversal_invalid_rejected eps c name cur d (valH_split_minmax_rejected c h)
+
+/-- re-export of `Props.C15.unknown_ordering_is_rejected` -/
+theorem unknown_ordering_rejected_bogus (eps : α) (d : DMP α) (dr : Draws α) :
+    ∃ e, orderCriteria eps "bogus" d dr = .error e :=
+  Rdm.Props.C15.unknown_ordering_is_rejected eps d dr
+
+/-- … for every non-empty name that is not registered -/
+theorem unknown_ordering_rejected (eps : α) (name : String) (d : DMP α) (dr : Draws α)
+    (hne : name.isEmpty = false) (hunk : availableOrderings.contains name = false) :
+    ∃ e, orderCriteria eps name d dr = .error e :=
+  valH_unknown_ordering_rejected eps name d dr hne hunk
+
+/-! ### bounding, fatigue, concealment, mixing -/
+
+/-- `allowedValuesRangeScaling = 0` is rejected by the fatigue bias -/
+theorem fatigue_bounding_scaling_zero_rejected (exp : Rat → Rat) (fn : FatigueFn Rat) (b : Bounding Rat)
+    (cur : DMP Rat) (d : Draws Rat) (h : b.scaling = 0) :
+    ∃ e, fatigueApply exp fn b cur d = .error e :=
+  valH_fatigueApply_bounding_zero_rejected exp fn b cur d (by rw [Num.beq_rat, h]; rfl)
+
+/-- re-export of `Props.C17.unknown_function_rejected`: an unknown fatigue function is rejected -/
+theorem fatigue_unknown_function_rejected (exp : α → α) (n : String) (b : Bounding α) (cur : DMP α)
+    (d : Draws α) : ∃ e, fatigueApply exp (.unknown n) b cur d = .error e :=
+  Rdm.Props.C17.unknown_function_rejected exp n b cur d
+
+/-- `newCriterionScaling = 0` is rejected by criteria concealment -/
+theorem concealment_scaling_zero_rejected (eps : Rat) (orig cur : DMP Rat) (p : Props Rat)
+    (refDraws gen : Draws Rat)
+    (h : p.num "newCriterionScaling" (Num.ofConst Facts.defaultConcealmentScaling) = 0) :
+    ∃ e, conceal eps orig cur p refDraws gen = .error e :=
+  valH_conceal_scaling_zero_rejected eps orig cur p refDraws gen (by rw [Num.beq_rat, h]; rfl)
+
+/-- `allowedValuesRangeScaling = 0` is rejected by criteria concealment -/
+theorem concealment_bounding_scaling_zero_rejected (eps : Rat) (orig cur : DMP Rat) (p : Props Rat)
+    (refDraws gen : Draws Rat)
+    (h : p.num "allowedValuesRangeScaling" (Num.ofConst Facts.defaultBoundingScaling) = 0) :
+    ∃ e, conceal eps orig cur p refDraws gen = .error e :=
+  valH_conceal_bounding_zero_rejected eps orig cur p refDraws gen (by rw [Num.beq_rat, h]; rfl)
+
+/-- a `mixingRatio` outside [0,1] is rejected by criteria mixing (which acts from two criteria on) -/
+theorem mixing_ratio_out_of_range_rejected (eps : Rat) (orig cur : DMP Rat) (p : Props Rat)
+    (refDraws gen : Draws Rat) (hn : 2 ≤ cur.crit.length)
+    (h : p.num "mixingRatio" (Num.ofConst Facts.defaultMixingRatio) < 0 ∨
+         1 < p.num "mixingRatio" (Num.ofConst Facts.defaultMixingRatio)) :
+    ∃ e, mixing eps orig cur p refDraws gen = .error e :=
+  valH_mixing_ratio_rejected eps orig cur p refDraws gen hn (by
+    rintro ⟨h0, h1⟩
+    rcases h with h | h
+    · exact absurd h (Rat.not_lt.mpr h0)
+    · exact absurd h (Rat.not_lt.mpr h1))
+
+/-! ### names and weights -/
+
+/-- an enabled bias whose name is not registered is rejected by `ChooseBiases` -/
+theorem unknown_bias_rejected {P : Type} (avail : List String) (reqs : List (BiasReq α P))
+    (b : BiasReq α P) (hb : b ∈ reqs) (hen : b.disabled = false) (hunk : avail.contains b.name = false) :
+    ∃ e, chooseBiases avail reqs = .error e :=
+  valH_unknown_bias_rejected avail reqs b hb hen hunk
+
+/-- a criterion without a weight is rejected by `Weights.Fetch` -/
+theorem missing_weight_rejected (m : KMap α) (k : String) (h : m.has k = false) :
+    ∃ e, m.fetch k = .error e :=
+  valH_missing_weight_rejected m k h
+
+/-! ### satisfiable instances of the per-method constraints -/
+
+example : validateParameters (⟨1, ⟨0, 1⟩, ⟨0, 2⟩, ⟨0, 3⟩⟩ : ECrit Rat) = .ok () := rfl
+example : ∃ e, validateParameters (⟨0, ⟨0, 1⟩, ⟨0, 2⟩, ⟨0, 3⟩⟩ : ECrit Rat) = .error e :=
+  electre_nonpositive_weight_rejected _ (by decide +kernel)
+example : ∃ e, validateParameters (⟨1, ⟨0, 2⟩, ⟨0, 2⟩, ⟨0, 3⟩⟩ : ECrit Rat) = .error e :=
+  electre_p_le_q_rejected _ (by decide +kernel) rfl (by decide +kernel) (by decide +kernel)
+example : ∃ e, validateParameters (⟨1, ⟨0, 1⟩, ⟨0, 2⟩, ⟨0, 1⟩⟩ : ECrit Rat) = .error e :=
+  electre_v_le_p_rejected _ (by decide +kernel) rfl (by decide +kernel) (by decide +kernel)
+/-- the function of the registered finding (a = -0.2, b = 0.1): negative at credibility 1 -/
+example : validDistillation (⟨-1/5, 1/10⟩ : LinFun Rat) = false :=
+  negative_distillation_rejected _ 1 (by decide +kernel) (by decide +kernel) (by decide +kernel)
+example : validDistillation (defaultDistillation : LinFun Rat) = true := by decide +kernel
+example : (⟨3/2, 0, maxInt64⟩ : SplitCond Rat).validate = .error "ratio-not-a-probability" := by decide +kernel
+example : (⟨1/2, 3, 2⟩ : SplitCond Rat).validate = .error "max-lower-than-min" := by decide +kernel
+example : (⟨0, false⟩ : Bounding Rat).validate = .error "allowedValuesRangeScaling-cannot-be-0" := rfl
+example : ∃ e, chooseBiases (α := Rat) (P := Unit) ["fatigue"] [⟨"nope", false, none, ()⟩] = .error e :=
+  unknown_bias_rejected _ _ ⟨"nope", false, none, ()⟩ (by simp) rfl (by decide)
 
 end Rdm.Props.C20
